@@ -28,8 +28,12 @@ def run_case(ctx, mr, case):
     start = case.get('start', 0)
     ctx.stat('mode_' + spec['mode'] + ('_seed' if spec['uses_seed'] else ''))
     ctx.stat('method_%x' % spec['method'])
+    lazy = bool(case.get('lazy'))
     try:
-        r, bio = nc.open_reader(image, kwargs, start=start)
+        # lazy: the nested ExeFS / RomFS readers are not wanted (load_sections=False); the raw section views are the same views
+        r, bio = nc.open_reader(image, kwargs, start=start, **(dict(load_sections=False) if lazy else {}))
+        if lazy:
+            ctx.stat('load_sections_false')
     except Exception as ex:
         ctx.diff('oracle', 'ncch-open-raises', case, 'a reader', pyenv.errname(ex) + ': ' + str(ex)[:100], f'well-formed NCCH rejected ({pyenv.errname(ex)})')
         return
@@ -65,7 +69,7 @@ def run_case(ctx, mr, case):
             c.run(ops)
             ctx.stat('section_views')
         # ExeFS entries and file bytes through the nested reader
-        if info['exefs'] is not None and r.exefs is not None:
+        if info['exefs'] is not None and getattr(r, 'exefs', None) is not None:
             want = {n: (fi['offset'], fi['size']) for n, fi in info['exefs'].items()}
             got = {n: (e.offset, e.size) for n, e in r.exefs.entries.items()}
             if got != want:
@@ -77,7 +81,7 @@ def run_case(ctx, mr, case):
                 if data != pt[0x200 + fi['offset']:0x200 + fi['offset'] + fi['size']]:
                     ctx.diff('oracle', 'ncch-exefs-file', dict(case, file=n), 'file bytes', 'different', f'nested ExeFS file {n} differs')
         # correspondence: the crypto ranges against the Coq model
-        if getattr(r, '_exefs_special_handling', False) and info['exefs'] is not None:
+        if getattr(r, '_exefs_special_handling', False) and info['exefs'] is not None and hasattr(r, '_exefs_crypto_ranges'):
             size = len(info['plain']['exefs'])
             extra = sorted((0x200 + fi['offset'], 0x200 + fi['offset'] + fi['size']) for n, fi in info['exefs'].items()
                            if n not in ('icon', 'banner') and fi['size'])
@@ -87,16 +91,60 @@ def run_case(ctx, mr, case):
             ctx.stat('range_tables')
             if model != impl:
                 ctx.diff('corr', 'ncch-ranges-model', case, model, impl, 'ExeFS crypto ranges: Coq model and implementation differ')
-        if info['romfs_tree'] is not None and r.romfs is not None:
+        if info['romfs_tree'] is not None and getattr(r, 'romfs', None) is not None:
             from ..builders import romfs as R
             flat = R.flatten(info['romfs_tree'])
             for p, (kind, val) in flat.items():
                 if kind == 'file' and r.romfs.openbin(p).read() != val:
                     ctx.diff('oracle', 'ncch-romfs-file', dict(case, file=p), 'file bytes', 'different', f'nested RomFS file {p} differs')
+        # a seed offered to the open reader that does not match is refused, and a refusal leaves everything as it was: views opened
+        # before and views opened now still give the plaintext
+        if spec['uses_seed'] and spec['mode'] != 'nocrypto' and spec['dseed'] % 2:
+            held = {}
+            for name in nc.SEC_NAMES:
+                if name in info['plain']:
+                    try:
+                        held[name] = r.open_raw_section(nc.sec_enum(name))
+                    except Exception:
+                        pass            # reported above
+            try:
+                r.setup_seed(bytes(b ^ 0x21 for b in kwargs['seed']))
+                ctx.diff('oracle', 'ncch-bad-seed-accepted', case, 'NCCHSeedError', 'accepted', 'setup_seed accepted a seed that does not match the verification hash')
+            except NCCHSeedError:
+                ctx.stat('bad_setup_seed_refused')
+            except Exception as ex:
+                ctx.diff('oracle', 'ncch-bad-seed-error', case, 'NCCHSeedError', pyenv.errname(ex), 'wrong error for a bad seed')
+            for name, f0 in held.items():
+                for how, f in (('opened before', f0), ('opened after', None)):
+                    try:
+                        f = f or r.open_raw_section(nc.sec_enum(name))
+                        f.seek(0)
+                        got = f.read()
+                    except Exception as ex:
+                        got = pyenv.errname(ex)
+                    if got != info['plain'][name]:
+                        ctx.diff('oracle', 'ncch-after-refused-seed', dict(case, section=name), 'the section plaintext', 'something else',
+                                 f'NCCH section {name}: a view {how} the refused setup_seed call no longer gives the plaintext')
     finally:
         r.close()
     # a seed that does not match the verification hash is refused
     if spec['uses_seed'] and spec['mode'] != 'nocrypto':
+        # ... and the refusal leaves the process-wide seed database as it was: the container opened from the database before, so it does after
+        from pyctr.type.ncch import NCCHReader
+        import io
+        try:
+            NCCHReader(io.BytesIO(image), seed=bytes(b ^ 0x13 for b in kwargs['seed']), assume_decrypted=kwargs['assume_decrypted']).close()
+            ctx.diff('oracle', 'ncch-bad-seed-accepted', case, 'NCCHSeedError', 'accepted', 'a seed that does not match the verification hash was accepted')
+        except NCCHSeedError:
+            pass
+        except Exception as ex:
+            ctx.diff('oracle', 'ncch-bad-seed-error', case, 'NCCHSeedError', pyenv.errname(ex), 'wrong error for a bad seed')
+        try:
+            NCCHReader(io.BytesIO(image), assume_decrypted=kwargs['assume_decrypted']).close()
+            ctx.stat('reopened_from_seed_db')
+        except Exception as ex:
+            ctx.diff('oracle', 'ncch-seed-db-after-refusal', case, 'opens with the seed the database held', pyenv.errname(ex) + ': ' + str(ex)[:80],
+                     'after a refused seed the container no longer opens from the seed database (the refused seed replaced the right one)')
         bad = dict(kwargs, seed=bytes(b ^ 0x40 for b in kwargs['seed']))
         try:
             r2, _ = nc.open_reader(image, bad)
@@ -132,7 +180,7 @@ def canonical_cases():
 
 def gen_cases(ctx, rng):
     for _ in range(ctx.n(150, 5000)):
-        yield dict(spec=nc.gen_spec(rng), start=rng.choice([0, 0, 0x200, 0x37]))
+        yield dict(spec=nc.gen_spec(rng), start=rng.choice([0, 0, 0x200, 0x37]), lazy=rng.random() < 0.2)
 
 
 def run_cases(ctx, cases):
@@ -172,7 +220,7 @@ def run(ctx):
 def replay(ctx, path):
     with open(path) as f:
         payload = json.load(f)
-    case = {k: v for k, v in payload['case'].items() if k in ('spec', 'start')}
+    case = {k: v for k, v in payload['case'].items() if k in ('spec', 'start', 'lazy')}
     run_cases(ctx, [case])
     for d in ctx.diffs:
         print('REPRODUCED:', d['what'], 'expected', d['expected'], 'observed', d['observed'])
